@@ -8,10 +8,11 @@ import Driver.OpsScore
 import Driver.OpsSearch
 import Driver.OpsJT
 import Driver.OpsIndep
+import Driver.OpsPC
 open Lean PgmVerif PgmVerif.Drv
 
 def handlers : List (String → Json → Option (Except String Json)) :=
-  [handleFactor, handleCPD, handleGraph, handleHistory, handleLearn, handleScore, handleSearch, handleJT, handleIndep]
+  [handleFactor, handleCPD, handleGraph, handleHistory, handleLearn, handleScore, handleSearch, handleJT, handleIndep, handlePC]
 
 def handle (op : String) (j : Json) : Except String Json :=
   match handlers.findSome? (fun h => h op j) with
